@@ -12,7 +12,10 @@
 4. harness/replay_framing concretises every case (several spellings per token, seeded segmentation, pipelined
    or sequential sentinel) and sends it to a live H1 / TLS+H2 frontend of a real worker; recording backends
    log raw bytes (they answer HEAD from the head and keep the connection, refuse CONNECT with 405; an H2 probe is
-   followed by a late request that sozu writes on the backend connection the probe used); the harness's strict RFC 9112 reader (or its h2c frame reader) computes what a conforming
+   followed by a late request that sozu writes on the backend connection the probe used; `interim` cases: the backends send
+   100 Continue (to `Expect: 100-continue`) or 100 / 103 of their own accord after the request head, and the client sends
+   the body / DATA / trailers only once sozu relayed it; `late` cases: the trailer frame is held back until a backend
+   holds head and DATA, the backends keep their answer back meanwhile); the harness's strict RFC 9112 reader (or its h2c frame reader) computes what a conforming
    backend reads; the result must be admissible.
 """
 import json
@@ -31,7 +34,14 @@ ALL_DEVIATIONS = ["NoLenUntilClose", "ClPlus", "TeLenient", "LenientName",
                   # the response complete before the request (a backend answering from the request head): the frontend
                   # connection kept alive with part of the body unread / the backend connection pooled with the request not
                   # written completely (the code before fix: commits 54f6c21, f073bfa)
-                  "ReuseFrontUnread", "ReuseBackUnwritten"]
+                  "ReuseFrontUnread", "ReuseBackUnwritten",
+                  # environment dimensions `interim` (the backend sends 100 Continue / 103 after the request head, the body /
+                  # DATA / trailers are read by sozu after it relayed that response head) and `late` (the trailer frame is
+                  # held back until the backend holds head and DATA): the 1xx arm of h2.rs content_length_exempt applied
+                  # to the REQUEST read on the frontend connection (the code before the fix, finding
+                  # c03-interim-status-exempts-request); trailers behind a Content-Length body written when the head has
+                  # already left the queue (a defect class, never the code's behaviour)
+                  "InterimStatusExempt", "TrailerAfterClLate"]
 
 CFG = """SPECIFICATION Spec
 CONSTANTS
@@ -134,6 +144,7 @@ def run(tier, replay=None):
     legs = [("h1", 3 if thorough else 1), ("h2c", 1)]
     total = 0
     distinct = 0
+    vacuous = []
     for backend, variants in legs:
         out = vlib.run_harness(bins["replay_framing"],
                                ["--seed", str(vlib.seed()), "--lanes", "32", "--variants", str(variants),
@@ -150,6 +161,16 @@ def run(tier, replay=None):
         if unavailable * 50 > summ["probes"]:
             raise vlib.ToolError("%d of %d probes could not be judged (backend held unavailable by sozu)" % (unavailable, summ["probes"]))
         distinct = max(distinct, summ["distinct_case_outcomes"])
+        # vacuity of the environment dimensions: the interim response must really have been relayed to the client before
+        # the rest of the request was sent, and the backend must really have held head + DATA when the trailers went out,
+        # in a fair share of the cases that ask for it (cases whose head sozu refuses never reach a backend)
+        envd = {k: summ.get(k, 0) for k in ("interim_cases", "interim_relayed", "late_cases", "late_held")}
+        rep.extra.setdefault("environment", {})[backend] = envd
+        if backend == "h1":   # (h2c backends send no interim response, and their log is decoded frames, not bytes: see replay_framing)
+            if envd["interim_cases"] == 0 or envd["late_cases"] == 0:
+                vacuous.append("no interim / late-trailer case was replayed (backend %s): %s" % (backend, envd))
+            elif envd["interim_relayed"] * 4 < envd["interim_cases"] or envd["late_held"] * 4 < envd["late_cases"]:
+                vacuous.append("the interim response / the held-back trailers did not happen in the replay (backend %s): %s" % (backend, envd))
         rep.cov["evaluations"] += summ["probes"]
         rep.extra.setdefault("observed_classes", {})[backend] = summ["classes"]
         rep.extra.setdefault("replay_wall_s", {})[backend] = round(summ["wall_s"], 1)
@@ -167,6 +188,9 @@ def run(tier, replay=None):
             rep.violation(k, desc, v, name="%s_%s_%d.json" % (backend, k.replace(":", "_").replace("/", "_"), seen[k]))
         vlib.log("replay backend=%s: %d probes, classes %s, violation classes %s" % (
             backend, summ["probes"], summ["classes"], summ["violation_classes"]))
+    # (a tool error never hides a violation: only a run without one is refused for vacuity)
+    if vacuous and not rep.violations:
+        raise vlib.ToolError("; ".join(vacuous))
     rep.cov["traces_validated_against_impl"] = total
     rep.cov["distinct_nontrivial"] = distinct
     rep.cov["exhaustive"] = True
